@@ -205,6 +205,8 @@ class Ctx:
             self.failures.append(f)
         for k, v in s['sig_counts'].items():
             self.sig_counts[k] = self.sig_counts.get(k, 0) + v
+        if s.get('extra'):
+            self.cov.setdefault('replay_extra', {})[label] = s['extra']
         self.log(f"{label}: {s['n']} behaviours replayed, {s['distinct_nontrivial']} distinct non-trivial, "
                  f"{s['skipped']} skipped, failing signatures: {s['sig_counts'] or 'none'}")
         if s['skipped'] > s['n'] // 2:
